@@ -4,7 +4,7 @@
 From Coq Require Import List ZArith QArith Bool.
 From PV Require Import lib.Sx lib.Str lib.Result model.GenScc model.SccTime model.SccStash model.SccDecoder model.SccLayout.
 From PV Require Import spec.Spec608 spec.SpecScc05.
-From PV Require Import proofs.SccTableFacts proofs.SccTableFixFacts proofs.SccDoubleFacts proofs.SccItalicsFacts proofs.SccPoponStage1 proofs.SccPoponStage2 proofs.SccPoponStage3 proofs.SccPoponStage4 proofs.SccPoponStage6 proofs.SccPoponStage5 proofs.SccPoponStage2c proofs.SccPoponStage7.
+From PV Require Import proofs.SccTableFacts proofs.SccTableFixFacts proofs.SccDoubleFacts proofs.SccItalicsFacts proofs.SccPoponStage1 proofs.SccPoponStage2 proofs.SccPoponStage3 proofs.SccPoponStage4 proofs.SccPoponStage6 proofs.SccPoponStage5 proofs.SccPoponStage2c proofs.SccPoponStage7 proofs.SccPoponStage8 proofs.SccPoponStage9.
 From PV Require Import spec.SpecSccTime proofs.SccPoponFacts.
 Import ListNotations.
 Open Scope Z_scope.
@@ -288,6 +288,36 @@ Theorem C05_popon_stage7_refines_partial : forall d off segs evs spans,
                dom_c05 (mkProg d (ploads_of segs)) = true.
 Proof. exact popon_stage7. Qed.
 Print Assumptions C05_popon_stage7_refines_partial.
+
+(* ---- STAGE 8 / 9 = popon_refines_608, THE FULL ITEM DOMAIN. Stage 8: one load of any number of rows with all five
+        item kinds (basic, special, extended-with-stand-in, the 16 mid-row codes, backspace) and every preamble style;
+        stage 9: whole programs of such loads by the generic lifting. Domain lc_ok8 = load_wf (rows in row_ok, distinct
+        row numbers) + no_mid_after_full8: a row that fills its 32 cells is not directly followed by a row in which a
+        mid-row code arrives while the row shows no character yet (the reader appends the code's blank to the previous
+        text; after a full row that is not directly above, this trips the length check: C05_load_wf_not_enough is the
+        witness, found by the proof). Layout of the stream: one load per line, Erase-Displayed-Memory lines anywhere;
+        instants positive and every event after the latest End-Of-Caption. ------------------------------------------------ *)
+Theorem C05_popon_one_load_refines : forall d l off tc tc2 t1 t2, lc_ok8 l = true ->
+  get_time tc (Z.of_nat (length (emit_load d l)) - (if d then 2 else 1)) off = Ok t1 ->
+  get_time tc2 0 off = Ok t2 -> (0 < t1)%Q -> (t1 < t2)%Q -> is_flash (mkPre t1 t2 [] None) = false ->
+  exists caps, read off [(tc, emit_load d l); (tc2, emit_clear d)] = ROk caps /\
+               ok_c05 (mkProg d [l]) (Ok (map observe caps)) = true.
+Proof. exact popon_stage8. Qed.
+Print Assumptions C05_popon_one_load_refines.
+Theorem C05_popon_refines_608 : forall d off segs evs spans,
+  forallb pseg_ok8 segs = true -> res_map (pseg_event d off) segs = Ok evs -> positive evs -> after_show None evs ->
+  expected_with join_threshold evs = Ok spans ->
+  exists caps, read off (map (pseg_line d) segs) = ROk caps /\
+               ok_c05 (mkProg d (ploads_of segs)) (Ok (map observe caps)) = true /\
+               dom_c05 (mkProg d (ploads_of segs)) = true.
+Proof. exact popon_refines_608. Qed.
+Print Assumptions C05_popon_refines_608.
+Theorem C05_load_wf_not_enough :
+  load_wf cex_load = true /\ lc_ok8 cex_load = false /\
+  forallb (fun d => match read 0 [(lit "00:00:01;00", emit_load d cex_load); (lit "00:00:05;00", emit_clear d)] with
+                    | RLen _ => true | _ => false end) [false; true] = true.
+Proof. exact load_wf_not_enough. Qed.
+Print Assumptions C05_load_wf_not_enough.
 
 (* ---- non-vacuity / behaviour after fix #22: the second caption is addressed on its own ---------------------------- *)
 Example C05_example_two_loads :
